@@ -23,7 +23,7 @@ func init() {
 		Rule: "inheritance configurations: chains of 1-4 templates x block names {a,b} (and {a,b,c} for chains <= 3) x per level and name {absent, override, override + parent() before/after}, rendered from the leaf and from every intermediate template (exhaustive); " +
 			"the same with a use-import at one level (with/without alias, colliding names); random larger shapes (nested blocks, blocks in loops, block(name), parent named by a concatenation or a conditional, content outside blocks). Every block body calls who() which logs Context.Name(). " +
 			"Oracle: resolution model from the statement (first definition in [own, used, parent's own, ...]; parent() = next definition after the current one; child content outside blocks dropped; who() = defining template). " +
-			"Non-trivial: chain length >= 3 or a use, with at least one parent() that has an ancestor definition; distinct by configuration. Also: overrides of the block rendered inside a loop print the loop variable and metadata; a helper block imported under a different alias at each using level, onto names the chain defines itself; large instances (chains of 8 / 17 / 40 templates, 700 blocks in one pair).",
+			"Non-trivial: chain length >= 3 or a use, with at least one parent() that has an ancestor definition; distinct by configuration. Also: overrides of the block rendered inside a loop print the loop variable and metadata; a helper block imported under a different alias at each using level, onto names the chain defines itself; large instances (chains of 8 / 17 / 40 templates, 700 blocks in one pair); overriding blocks placed under if / for / for-else at the child's top level (defined there, rendered only where the root places them); use aliases onto the block's own name, onto each other's names and onto a name another alias of the tag renames.",
 		Assumptions: []string{"reference resolution model trusted; at most one use per template (Twig and stick order several uses differently, the statement is silent)"},
 	}
 	sub := NewSub(p, "inherit", func(c *Ctx, cs *c09Case) *Fail {
